@@ -631,7 +631,13 @@ with lval (fuel : nat) (E : env) (M : memory) (e : expr) {struct fuel} : result 
       end
     | EIndex a i =>
       loc <~ lval f E M a ;; iv <~ eval f E M i ;; z <~ index_z iv ;;
-      cur <~ load M (fst loc) (snd loc) ;; n <~ index_in cur z ;;
+      (* an element of a variable that was declared without initialiser and never written as a whole (naga's
+         element-wise zero-initialisation loops over arrays of atomics): its shape is unknown here *)
+      cur <~ match nth_error M (fst loc) with
+             | Some None => Fail "not modelled: element access into a variable that was never written as a whole"
+             | _ => load M (fst loc) (snd loc)
+             end ;;
+      n <~ index_in cur z ;;
       Done (fst loc, (snd loc ++ [n])%list)
     | ECond c a b =>        (* C++: a conditional expression whose branches are lvalues is an lvalue (naga: `ok ? x.inner[i] : oob`) *)
       cv <~ eval f E M c ;; t <~ to_bool cv ;; lval f E M (if t then a else b)
@@ -752,6 +758,18 @@ with exec_stmt (fuel : nat) (E : env) (M : memory) (s : stmt) {struct fuel} : re
       | ECall fn args =>
         r <~ call_stmt f E M fn args ;;
         match fst r with Some v => Done (v, snd r) | None => Fail "void call used as a value" end
+      | ECond c (ECall fn args) EDC =>
+        (* read-zero-skip-write guard around an atomic: `ok ? atomic_op(&a[i], ..) : DefaultConstructible()` *)
+        if is_atomic_fn fn then
+          cv <~ eval f E M c ;; b <~ to_bool cv ;;
+          if b then
+            r <~ call_stmt f E M fn args ;;
+            match fst r with Some v => Done (v, snd r) | None => Fail "void call used as a value" end
+          else match t with
+               | Some ty => z <~ zero_of 64 ty ;; Done (z, M)
+               | None => Fail "not modelled: DefaultConstructible() of unknown type"
+               end
+        else v <~ eval f E M e ;; Done (v, M)
       | _ => v <~ eval f E M e ;; Done (v, M)
       end in
     match s with
